@@ -89,6 +89,12 @@ package storage
 //@   requires store_wf(s) && held[addr(s.blacklistedJTIsMutex)] == 0 && (forall m2 V :: held[m2] != 0 ==> mrank(m2) < 2)
 //@   modifies held, mapof(s.BlacklistedJTIs)
 //@   ensures [C19.locks-released] held == old(held)
+//@   let B = s.BlacklistedJTIs
+//@   ensures [C15.jti-mark-if-absent] err == nil ==> (jti in B) && B[jti] == exp && (old(jti in B) ==> old(B[jti]) < $now)
+//@   ensures [C15.jti-mark-if-absent] err != nil ==> eis(err, fosite.ErrJTIKnown) && old(jti in B) && (jti in B) && B[jti] == old(B[jti])
+//@   ensures [C15.unexpired-jtis-remembered] forall k string :: k != jti && old(k in B) && old(B[k]) >= $now ==> (k in B) && B[k] == old(B[k])
+//@   ensures [C15.unexpired-jtis-remembered] forall k string :: k != jti && (k in B) ==> old(k in B) && B[k] == old(B[k])
+//@   invariant loop#1 [C15.unexpired-jtis-remembered] s.BlacklistedJTIs == pre(s.BlacklistedJTIs) && (forall k string :: old(k in B) && old(B[k]) >= $now ==> (k in B) && B[k] == old(B[k])) && (forall k string :: (k in B) ==> old(k in B) && B[k] == old(B[k]))
 
 //@ func (*MemoryStore).CreateAuthorizeCodeSession
 //@   requires store_wf(s) && held[addr(s.authorizeCodesMutex)] == 0 && (forall m2 V :: held[m2] != 0 ==> mrank(m2) < 2)
